@@ -3,6 +3,7 @@
 package llrp
 
 import (
+	"sync"
 	"bytes"
 	"encoding/json"
 	"fmt"
@@ -79,6 +80,62 @@ func TestVerifC01(t *testing.T) {
 		}
 		o.line("rt "+c.Name+" "+v.String(), s.roundTrip(c, v))
 	}
+	// parameters at the top of the 16-bit TLV length range
+	for _, v := range s.topOfRange(rng) {
+		c := s.params["Custom"]
+		p := s.newGo(c)
+		s.toGo(c, v, p.Elem())
+		b, res := vmarshal(p)
+		obs := res
+		if res == "ok" {
+			obs = "ok x" + vhex(b)
+		}
+		o.line("enc "+c.Name+" "+v.String(), obs)
+		o.line("rt "+c.Name+" "+v.String(), s.roundTrip(c, v))
+	}
+	// encoders running on several goroutines at once (one Client per reader; SendFor marshals on the caller's goroutine):
+	// each goroutine's bytes must be the bytes the same value gives when it is encoded alone
+	{
+		type job struct {
+			c    *sContainer
+			p    reflect.Value
+			want []byte
+		}
+		var jobs []job
+		for _, name := range []string{"AddROSpec", "ROAccessReport", "SetReaderConfig", "AddAccessSpec", "GetReaderCapabilitiesResponse", "ReaderEventNotification", "AddROSpec", "ROAccessReport"} {
+			c := s.msgs[name]
+			g := &vgen{s: s, r: rng, budget: 60}
+			v := g.value(c, 0)
+			p := s.newGo(c)
+			s.toGo(c, v, p.Elem())
+			if b, res := vmarshal(p); res == "ok" {
+				jobs = append(jobs, job{c, p, append([]byte(nil), b...)})
+			}
+		}
+		var wg sync.WaitGroup
+		bad := make([][]byte, len(jobs))
+		for i := range jobs {
+			wg.Add(1)
+			go func(i int) {
+				defer wg.Done()
+				for k := 0; k < 300; k++ {
+					b, res := vmarshal(jobs[i].p)
+					if res != "ok" || !bytes.Equal(b, jobs[i].want) {
+						bad[i] = append([]byte{}, b...)
+						return
+					}
+				}
+			}(i)
+		}
+		wg.Wait()
+		for i := range jobs {
+			if bad[i] != nil {
+				o.line("same x"+vhex(jobs[i].want)+" x"+vhex(bad[i]), "yes")
+			}
+		}
+	}
+	var recycled reflect.Value
+	var recycledOf *sContainer
 	for _, c := range s.all {
 		for i := 0; i < per; i++ {
 			g := &vgen{s: s, r: rng, big: vthorough() && i%4 == 0, budget: 60}
@@ -104,6 +161,16 @@ func TestVerifC01(t *testing.T) {
 					r = "ok " + s.fromGo(c, p2.Elem()).String()
 				}
 				o.line("dec "+c.Name+" x"+vhex(b), r)
+				// the same bytes decoded into a recycled value of this type (slices cut to length 0, capacity kept)
+				if recycledOf == c && recycled.IsValid() {
+					recycleTop(recycled.Elem())
+					r2 := vunmarshal(recycled, b)
+					if r2 == "ok" {
+						r2 = "ok " + s.fromGo(c, recycled.Elem()).String()
+					}
+					o.line("dec "+c.Name+" x"+vhex(b), r2)
+				}
+				recycled, recycledOf = p2, c
 			}
 			o.line("rt "+c.Name+" "+txt, s.roundTrip(c, v))
 		}
